@@ -608,6 +608,94 @@ fn line_ranges(text: &str) -> Vec<std::ops::Range<usize>> {
     out
 }
 
+/// Copy and paste of a whole declaration (`proc ... { ... }` or `type ...;`), as it is, without its
+/// `var` lines, with an emptied parameter list or reduced to its first statements - pasted at the
+/// end of the text or right behind the original: two declarations of the same name, the later one
+/// possibly much shorter and using names the earlier one declares.
+pub fn copy_declaration(rng: &mut Rng, text: &str) -> Option<(std::ops::Range<usize>, String)> {
+    let toks = crude_tokens(text);
+    let mut decls: Vec<std::ops::Range<usize>> = vec![];
+    let mut i = 0;
+    while i < toks.len() {
+        let w = &text[toks[i].clone()];
+        if w == "proc" {
+            // to the brace that closes the body
+            let mut depth = 0i32;
+            let mut j = i;
+            let mut end = None;
+            while j < toks.len() {
+                match &text[toks[j].clone()] {
+                    "{" => depth += 1,
+                    "}" => {
+                        depth -= 1;
+                        if depth <= 0 {
+                            end = Some(toks[j].end);
+                            break;
+                        }
+                    }
+                    _ => {}
+                }
+                j += 1;
+            }
+            match end {
+                Some(e) => {
+                    decls.push(toks[i].start..e);
+                    i = j + 1;
+                    continue;
+                }
+                None => break,
+            }
+        } else if w == "type" {
+            if let Some(j) = (i..toks.len()).find(|&j| &text[toks[j].clone()] == ";") {
+                decls.push(toks[i].start..toks[j].end);
+                i = j + 1;
+                continue;
+            }
+        }
+        i += 1;
+    }
+    if decls.is_empty() {
+        return None;
+    }
+    let d = rng.pick(&decls).clone();
+    let mut copy = text[d.clone()].to_string();
+    match rng.below(5) {
+        0 => {}
+        1 => {
+            // without the local variable declarations
+            copy = copy.lines().filter(|l| !l.trim_start().starts_with("var ")).collect::<Vec<_>>().join("\n");
+        }
+        2 => {
+            // parameters gone
+            if let (Some(a), Some(b)) = (copy.find('('), copy.find(')')) {
+                if a < b {
+                    copy.replace_range(a + 1..b, "");
+                }
+            }
+        }
+        3 => {
+            // parameters and variables gone, only the first statements left
+            if let (Some(a), Some(b)) = (copy.find('('), copy.find(')')) {
+                if a < b {
+                    copy.replace_range(a + 1..b, "");
+                }
+            }
+            let lines: Vec<&str> = copy.lines().filter(|l| !l.trim_start().starts_with("var ")).collect();
+            let keep = rng.range(1, 3).min(lines.len());
+            copy = format!("{}\n}}", lines[..keep].join("\n"));
+        }
+        _ => {
+            // header and an empty body
+            if let Some(a) = copy.find('{') {
+                copy.truncate(a + 1);
+                copy.push_str("\n}");
+            }
+        }
+    }
+    let at = if rng.chance(700) { text.len() } else { d.end };
+    Some((at..at, format!("\n{copy}\n")))
+}
+
 /// Syntax-preserving (or at least syntax-aware) edits.
 pub fn structural_edit(rng: &mut Rng, text: &str) -> (std::ops::Range<usize>, String) {
     let toks = crude_tokens(text);
@@ -624,11 +712,23 @@ pub fn structural_edit(rng: &mut Rng, text: &str) -> (std::ops::Range<usize>, St
             .contains(&w)
     };
     for _ in 0..8 {
-        match rng.below(14) {
+        match rng.below(16) {
+            14 | 15 => {
+                if let Some(e) = copy_declaration(rng, text) {
+                    return e;
+                }
+            }
             0 | 1 => {
                 // rename an identifier occurrence
                 let ids: Vec<_> = toks.iter().filter(|r| is_ident(r)).collect();
                 if let Some(r) = ids.get(rng.below(ids.len().max(1))) {
+                    // half of the renames produce a name that already occurs in the document
+                    // (redeclarations, a procedure named like another one, a use that now means
+                    // something else)
+                    if rng.chance(500) {
+                        let other = ids[rng.below(ids.len())].clone();
+                        return ((*r).clone(), text[other].to_string());
+                    }
                     let new = *rng.pick(&["a", "renamed", "x1", "main", "i", "int", "T2", "q_", "printi", "time"]);
                     return ((*r).clone(), new.to_string());
                 }
